@@ -214,6 +214,32 @@ def install(handler, g):
         from unit_scaling.transforms.utils import _compose_backends
 
         ob = rj["obligation"]
+        if "_zero_init_biases" in ob or "_unit_init_weights" in ob:
+            import unit_scaling as uu
+            from unit_scaling.transforms import _unit_scale as us
+
+            fn = us._zero_init_biases if "_zero_init_biases" in ob else us._unit_init_weights
+            torch.manual_seed(0)
+            m = nn.Sequential(uu.Linear(4, 3, bias=True), nn.Linear(3, 3), nn.Embedding(5, 3), nn.LayerNorm(3))
+            with torch.no_grad():
+                m[0].bias.add_(1.0)
+            before = {n: (p, getattr(p, "mup_type", None), p.requires_grad, p.detach().clone()) for n, p in m.named_parameters()}
+            fn(m)
+            msgs = []
+            for n, p in m.named_parameters():
+                p0, tag0, rg0, v0 = before[n]
+                if p is not p0:
+                    msgs.append(f"{n}: replaced by a new parameter object (tags {getattr(p, 'mup_type', '<none>')!r}, was {tag0!r})")
+                    continue
+                lin_or_emb = n.startswith(("0.", "1.", "2."))
+                if fn is us._zero_init_biases:
+                    want = torch.zeros_like(v0) if (lin_or_emb and n.endswith("bias")) else v0
+                else:
+                    want = v0 / v0.std() if (lin_or_emb and n.endswith("weight")) else v0
+                if not torch.allclose(p.detach(), want, rtol=1e-6, atol=1e-7):
+                    msgs.append(f"{n}: value after {fn.__name__} is not what the recipe prescribes (max diff {float((p.detach() - want).abs().max()):.3g})")
+            return bool(msgs), "; ".join(msgs)[:600] or "parameters re-initialised in place, objects and tags kept"
+
         if "_compose_backends" in ob:
             log = []
 
@@ -328,6 +354,20 @@ def install(handler, g):
         from unit_scaling.transforms._track_scales import ScaleTrackingAutogradFunction
 
         ob = rj["obligation"]
+        if "Metrics.from_tensor" in ob:
+            from unit_scaling.transforms._track_scales import Metrics
+
+            msgs = []
+            for dt, scale in ((torch.float64, 1.0), (torch.float64, 1e-60), (torch.float64, 1e60), (torch.float32, 1.0), (torch.bfloat16, 1.0)):
+                t = (torch.randn(64, dtype=torch.float64) * scale).to(dt)
+                d = Metrics.from_tensor(t)
+                a = t.double().abs()
+                want = (float(a.mean()), float(a.max()), float(a.min()), t.numel())
+                got = (d.mean_abs, d.abs_max, d.abs_min, d.numel)
+                tol = 1e-12 if dt == torch.float64 else 1e-2
+                if any((w == 0 and g != 0) or (w != 0 and not (abs(g - w) <= tol * abs(w))) for g, w in zip(got, want)):
+                    msgs.append(f"{dt} tensor of magnitude {scale:g}: recorded (mean|x|, max|x|, min|x|, numel) = {got}, true {want}")
+            return bool(msgs), "; ".join(msgs)[:600] or "the recorded statistics are the true ones in every dtype"
         if "ScaleTrackingAutogradFunction" in ob:
             meta = {}
             t = torch.randn(5, requires_grad=True)
